@@ -779,7 +779,7 @@ func (e *endpoint) handleClose() *tcpip.Error {
 // resetConnectionLocked 发送一个RST段，并将端点置于具有给定错误代码的错误状态。
 // 只能从协议goroutine中调用此方法。
 func (e *endpoint) resetConnectionLocked(err *tcpip.Error) {
-	e.sendRaw(buffer.VectorisedView{}, flagAck|flagRst, e.snd.sndUna, e.rcv.rcvNxt, 0)
+	e.sendRaw(buffer.VectorisedView{}, flagAck|flagRst, e.snd.sndNxt, e.rcv.rcvNxt, 0)
 
 	e.state = stateError
 	e.hardError = err
